@@ -300,9 +300,13 @@ class EncodeRows(Filter[Iterable[Union[Dense,Sparse]],Iterable[Union[Dense,Spars
             if isinstance(enc,abc.Mapping):
                 if hasattr(first, 'headers'):
                     #headers is a mapping from name to index whose iteration order need not be the column order
+                    #it may also name only some of the columns or give one column several names
                     hdr = first.headers
-                    hdr = {i:h for h,i in hdr.items()} if isinstance(hdr,abc.Mapping) else dict(enumerate(hdr))
-                    enc = [ enc.get(hdr.get(i,i), enc.get(i, lambda x:x)) for i in range(len(first)) ]
+                    hdr = hdr.items() if isinstance(hdr,abc.Mapping) else zip(hdr,count())
+                    enc_by_col = [ enc.get(i, lambda x:x) for i in range(len(first)) ]
+                    for h,i in hdr:
+                        if h in enc and 0 <= i < len(enc_by_col): enc_by_col[i] = enc[h]
+                    enc = enc_by_col
                 else:
                     enc = [ enc.get(i, lambda x:x)             for i   in range(len(first))        ]
             return ( EncodeDense(row, enc) for row in rows )
